@@ -7,10 +7,17 @@ Claimed narrowly. Decides layering: (a) string-to-instant parsing entry points o
 (normalize_integer_epoch) are called only from shared::time::TimeParser; (b) every site that turns a user-supplied time literal into a stored or compared value (STORE payload normalisation,
 WHERE literal normalisation for zone pruning, row-condition building for WHERE and SINCE, temporal pruning, materialisation spec) reaches TimeParser::{parse_str_to_epoch_seconds, normalize_json_value};
 (c) SINCE is parsed by the same function at the row-condition site and at the pruning site (the SINCE value flows unparsed into the filter whose literal is normalised by the same parser).
-Does NOT decide the parser's arithmetic (digit-count boundaries, pre-1970, offsets), float epochs, or PER bucket alignment.
+(d) a full RFC3339 instant denotes `dt.timestamp()` whatever the field kind: on the success path of parse_from_rfc3339 the returned value is computed only by
+with_timezone / timestamp - no calendar truncation (date_naive, and_hms…) and no second construction, which would make one instant stored differently depending on its spelling
+(numeric spellings never see the kind);
+(e) PER buckets are wall-clock aligned: each CalendarTimeBucketer::bucket_{hour,day,week,month,year} builds the bucket start from dt's LOCAL calendar fields
+(date_naive(dt) + and_hms_opt(hour(dt) | 0, 0, 0)), that naive time is interpreted in dt's own timezone (and_local_timezone(.., dt.timezone()), directly or through a
+same-module helper), and bucket_of maps each granularity to its own sibling in both the cached-timezone and the UTC branch;
+(f) the bucketers never unwrap the LocalResult of a local-time interpretation (and_local_timezone / from_local_datetime / with_ymd_and_hms; panics for every instant whose bucket start is a repeated or skipped local time - DST).
+Does NOT decide the parser's arithmetic (digit-count boundaries, pre-1970, offsets), float epochs, or how ambiguous/skipped local times are resolved.
 """
-FLOOR = 3
-REQUIRED = ["C16.a", "C16.b", "C16.c"]
+FLOOR = 6
+REQUIRED = ["C16.a", "C16.b", "C16.c", "C16.d", "C16.e", "C16.f"]
 
 CHRONO_PARSE = re.compile(r"^chrono::.*(parse_from_rfc3339|parse_from_rfc2822|parse_from_str|parse_and_remainder|FromStr>::from_str)$|^(time|humantime|dateparser|iso8601)::")
 PARSER_FNS = {"shared::time::TimeParser::parse_str_to_epoch_seconds", "shared::time::TimeParser::normalize_json_value"}
@@ -99,3 +106,129 @@ def run(ctx):
                     ops.add(l[1].split("::")[-1])
         return bad
     ctx.run("C16.c", "K11 SIB", "SINCE at pruning and row-condition sites", "SINCE is interpreted by the same parser on both sides", c)
+
+    def slice_calls(b, op):
+        ls = wide_all(b, op)
+        return [c_ for c_ in b.calls if not c_.cleanup and c_.dest and c_.dest[0] in ls]
+
+    def d(inst):
+        b = F.fn("shared::time::TimeParser::parse_str_to_epoch_seconds")
+        rfc = one(b, r"parse_from_rfc3339$")
+        oke = [e for e, v in ok_edges(b, rfc) if v == "Ok"]
+        if not oke:
+            raise AnchorMissing("Ok edge of parse_from_rfc3339")
+        bad, n = [], 0
+        ALLOWED = re.compile(r"parse_from_rfc3339$|::with_timezone$|DateTime::timestamp$|str::trim$")
+        for (bb, j, v, dst) in b.aggregates("option::Option", "Some"):
+            if dst[0] != 0 or not any(b.dominates_edge(e, bb) for e in oke):
+                continue
+            n += 1
+            cs = slice_calls(b, v["o"][0])
+            names = sorted({c_.nname for c_ in cs})
+            inst.sites.append("%s: Some(..) <- %s" % (sp(b, bb), [x.split("::")[-1] for x in names]))
+            extra = [x for x in names if not ALLOWED.search(x) and not TRANSPARENT.match(x)]
+            if not any(x.endswith("DateTime::timestamp") for x in names):
+                bad.append(("rfc3339-not-timestamp", "the value returned for an RFC3339 string is not dt.timestamp()", None))
+            if extra:
+                bad.append(("rfc3339-recomputed:%s" % ",".join(x.split("::")[-1] for x in extra), "the value returned for a full RFC3339 instant is recomputed through %s: the same instant is then stored differently depending on spelling / field kind" % extra, None))
+        if n < 1:
+            raise AnchorMissing("return Some(..) on the RFC3339 path")
+        return bad
+    ctx.run("C16.d", "K7 PROV", "TimeParser::parse_str_to_epoch_seconds", "an RFC3339 instant is its timestamp(), independent of the field kind", d)
+
+    GRAN = {"Hour": "bucket_hour", "Day": "bucket_day", "Week": "bucket_week", "Month": "bucket_month", "Year": "bucket_year"}
+
+    def e(inst):
+        bad = []
+        bo = F.fn("CalendarTimeBucketer::bucket_of")
+        sws = [(i, si) for i, si in ((i, bo.switch_info(i)) for i in sorted(bo.live_blocks()) if bo.blocks[i]["t"]["t"] == "switch") if si and si["kind"] == "enum" and (si.get("adt") or "").endswith("TimeGranularity")]
+        if len(sws) < 2:
+            raise AnchorMissing("two `match gran` in bucket_of (cached timezone / UTC), found %d" % len(sws))
+        for i, si in sws:
+            a = arms(bo, i)
+            for var, fn in GRAN.items():
+                got = sorted({c_.nname.split("::")[-1] for c_ in calls_in(bo, a.get(var, set()), r"CalendarTimeBucketer::bucket_\w+$")})
+                if got != [fn]:
+                    bad.append(("gran-table:%s" % var, "bucket_of (%s) sends TimeGranularity::%s to %s" % (sp(bo, i), var, got), None))
+        for var, fn in GRAN.items():
+            b = F.fn("CalendarTimeBucketer::" + fn)
+            hms = b.find_calls(r"NaiveDate::and_hms_opt$")
+            if len(hms) != 1:
+                bad.append(("local-fields:%s" % fn, "%s does not build its bucket start with exactly one date.and_hms_opt(h, 0, 0) (%d)" % (fn, len(hms)), None))
+                continue
+            h = hms[0]
+            date_calls = {c_.nname for c_ in slice_calls(b, h.args[0])}
+            if not any(x.endswith("::date_naive") for x in date_calls) or 2 not in (wide_all(b, h.args[0])):
+                bad.append(("local-date:%s" % fn, "%s: the date of the bucket start is not derived from dt.date_naive() (the LOCAL date)" % fn, None))
+            hl = b.origins(h.args[1])
+            want_hour = fn == "bucket_hour"
+            is_hour = any(l[0] == "call" and norm_path(l[1]).endswith("Timelike>::hour") for l in hl)
+            is_zero = all(l[0] == "const" and l[1].startswith("0_") for l in hl)
+            rest_zero = all(l[0] == "const" and l[1].startswith("0_") for a_ in h.args[2:4] for l in b.origins(a_))
+            inst.sites.append("%s @ %s: and_hms_opt(%s, %s)" % (fn, sp(b, h.bb), fmt_leaves(hl), "0, 0" if rest_zero else "?"))
+            if (want_hour and not is_hour) or (not want_hour and not is_zero) or not rest_zero:
+                bad.append(("local-hms:%s" % fn, "%s starts its bucket at (%s, ..) instead of %s" % (fn, fmt_leaves(hl), "(dt.hour(), 0, 0)" if want_hour else "(0, 0, 0)"), None))
+            # the naive local time reaches and_local_timezone(naive, dt.timezone()) and the result is what is returned
+            ret = deep_origins(F, b, [0])
+            for l in list(ret):
+                if l[0] == "call" and re.search(r"LocalResult::(unwrap|single|earliest|latest)$", norm_path(l[1])):
+                    c0 = b.call_at(l[2])
+                    if c0 is not None and c0.nname == norm_path(l[1]):
+                        ret |= b.origins(c0.args[0])
+            alt = [l for l in ret if l[0] == "call" and norm_path(l[1]).endswith("and_local_timezone")]
+            if not alt:
+                bad.append(("local-interpretation:%s" % fn, "%s does not return the naive local bucket start interpreted by and_local_timezone (returns %s)" % (fn, fmt_leaves(ret)), None))
+                continue
+            # where is that call: here or in a same-module helper receiving the naive value
+            direct = b.find_calls(r"and_local_timezone$")
+            if direct:
+                hosts = [(b, c_, None) for c_ in direct]
+            else:
+                hosts = []
+                for c_ in b.calls:
+                    if c_.cleanup or not c_.local or not F.has(c_.nname):
+                        continue
+                    H = F.fn_exact(c_.nname)
+                    for c2 in H.find_calls(r"and_local_timezone$"):
+                        hosts.append((H, c2, c_))
+            ok_flow = False
+            for H, c2, via in hosts:
+                if via is None:
+                    naive_ok = h.dest[0] in wide_all(H, c2.args[0])
+                    tz_calls = {x.nname for x in slice_calls(H, c2.args[1])}
+                    tz_ok = any(x.endswith("::timezone") for x in tz_calls) and 2 in wide_all(H, c2.args[1])
+                else:
+                    # helper(naive, &dt, ..): first call argument carries the naive value, and the helper feeds its own parameters to and_local_timezone
+                    pn = [k_ for k_, a_ in enumerate(via.args) if h.dest[0] in wide_all(b, a_)]
+                    pd = [k_ for k_, a_ in enumerate(via.args) if 2 in wide_all(b, a_) and h.dest[0] not in wide_all(b, a_)]
+                    naive_ok = any((k_ + 1) in wide_all(H, c2.args[0]) for k_ in pn)
+                    tz_calls = {x.nname for x in slice_calls(H, c2.args[1])}
+                    tz_ok = any(x.endswith("::timezone") for x in tz_calls) and any((k_ + 1) in wide_all(H, c2.args[1]) for k_ in pd)
+                if naive_ok and tz_ok:
+                    ok_flow = True
+            if not ok_flow:
+                bad.append(("local-timezone:%s" % fn, "%s: and_local_timezone does not receive (the naive bucket start, dt.timezone())" % fn, None))
+        return bad
+    ctx.run("C16.e", "K11 SIB + K7 PROV", "CalendarTimeBucketer::bucket_{hour,day,week,month,year}", "PER buckets start on local calendar boundaries of the configured timezone", e)
+
+    def f(inst):
+        bad = []
+        mod = "shared::datetime::time_bucketing::"
+        ks = [k for k in F.find("^" + re.escape(mod) + r"CalendarTimeBucketer::") if not k.endswith("::new")]
+        if len(ks) < 6:
+            raise AnchorMissing("CalendarTimeBucketer bodies (%d)" % len(ks))
+        n = 0
+        for k in ks:
+            B = F.fn_exact(k)
+            for c_ in B.calls:
+                if c_.cleanup:
+                    continue
+                if re.search(r"LocalResult::unwrap$", c_.nname) and any(l[0] == "call" and re.search(r"and_local_timezone$|from_local_datetime$|with_ymd_and_hms$", norm_path(l[1])) for l in B.origins(c_.args[0])):
+                    bad.append(("localresult-unwrap:%s" % k[len(mod):], "%s unwraps a chrono LocalResult (%s): panics whenever the bucket start is a repeated or skipped local time" % (k[len(mod):], sp(B, c_.bb)), None))
+                if re.search(r"and_local_timezone$|from_local_datetime$|with_ymd_and_hms$", c_.nname):
+                    n += 1
+        inst.sites.append("%d bodies, %d local-time interpretations" % (len(ks), n))
+        if n < 1:
+            raise AnchorMissing("a local-time interpretation in the bucketers")
+        return bad
+    ctx.run("C16.f", "K3 NOPATH", "CalendarTimeBucketer::*", "bucketing is total at DST transitions (no LocalResult::unwrap)", f)
